@@ -702,7 +702,7 @@ Proof.
   destruct Heq as (m' & a' & rs' & Hs' & Heq & Hr & Hlo & Hhi).
   cbn in Hr, Hlo, Hhi.
   symmetry in Heq. apply ai_run_prefix in Heq.
-  set (rs2 := firstn (length (seg ++ [(mn, an, None)])) rs') in *.
+  match type of Heq with ai_run _ _ _ ?r = _ => set (rs2 := r) in * end.
   assert (Ha : e_it e1 = a').
   { destruct (seg ++ [(mn, an, None)]) as [|e t] eqn:E; [discriminate|].
     injection Hhd as ->.
@@ -736,8 +736,8 @@ Proof.
   replace (seg ++ (mn, an, None) :: tr3) with ((seg ++ [(mn, an, None)]) ++ tr3) in Ht
     by (rewrite <- app_assoc; reflexivity).
   symmetry in Ht. apply ai_run_prefix in Ht.
-  apply (ai_run_inserted_beyond_next_yield (mode_cmp mode) L m' a' us
-           (firstn (length (seg ++ [(mn, an, None)])) rs3) x y seg mn an); auto.
+  match type of Ht with ai_run _ _ _ ?r = _ => set (rs2 := r) in * end.
+  apply (ai_run_inserted_beyond_next_yield (mode_cmp mode) L m' a' us rs2 x y seg mn an); auto.
   - rewrite Hr. exact Hyx.
   - rewrite <- Hm1. exact Hk.
   - rewrite Hlo, Hhi. exact Hrange.
